@@ -563,6 +563,29 @@ def make_wholecol(seed):
     rnd = random.Random(seed * 61 + 5)
     g = Gen(rnd, sheets=LAYOUT[:1], features=())
     b, s = LAYOUT[0]
+    if seed % 3 == 1:
+        # the column holds a complete array-formula block {B_top:B_top+1 = A1:A2 * 2} with a
+        # populated cell directly below it (and possibly a blank row above)
+        top = rnd.randint(1, 2)
+        for r in (1, 2):
+            g.cells[cid(b, s, 1, r)] = {'k': 'c', 'v': norm(rnd.choice(NUMS))}
+            g.order.append(cid(b, s, 1, r))
+        anchor, sp = cid(b, s, 2, top), cid(b, s, 2, top + 1)
+        g.cells[anchor] = {'k': 'af', 'e': ['op', rnd.choice(['*', '+']), ['rng', b, s, 1, 1, 1, 2], ['c', norm(V.N(2))]],
+                           'r': 2, 'c': 1, 'rect': [b, s, 2, top, 2, top + 1]}
+        g.cells[sp] = {'k': 'sp', 'anchor': anchor, 'i': 2, 'j': 1}
+        g.order += [anchor, sp]
+        g.reserved |= {anchor, sp}
+        below = cid(b, s, 2, top + 2)
+        g.cells[below] = {'k': 'c', 'v': norm(V.N(100))}
+        g.order.append(below)
+        fns = rnd.sample(['SUM', 'COUNT', 'MAX', 'MIN'], 2)
+        g.cells[cid(b, s, 4, 1)] = {'k': 'f', 'e': ['fn', fns[0], [['col', b, s, 2]]]}
+        g.cells[cid(b, s, 4, 2)] = {'k': 'f', 'e': ['fn', fns[1], [['col', b, s, 2]]]}
+        g.cells[cid(b, s, 4, 3)] = {'k': 'f', 'e': ['op', '+', ['ref', cid(b, s, 4, 1)], ['ref', sp]]}
+        g.order += [cid(b, s, 4, 1), cid(b, s, 4, 2), cid(b, s, 4, 3)]
+        g.seed = seed
+        return g
     col = rnd.randint(1, 2)
     blank = rnd.randint(1, 3)                       # rows 1..4, something populated below it
     for r in range(1, 5):
